@@ -37,6 +37,7 @@ from bqskit.ir.gates.constant.s import SGate
 from bqskit.ir.gates.constant.sdg import SdgGate
 from bqskit.ir.gates.constant.sqrtcnot import SqrtCNOTGate
 from bqskit.ir.gates.constant.sqrtiswap import SqrtISwapGate
+from bqskit.ir.gates.constant.sqrtt import SqrtTGate
 from bqskit.ir.gates.constant.swap import SwapGate
 from bqskit.ir.gates.constant.sx import SXGate
 from bqskit.ir.gates.constant.sycamore import SycamoreGate
@@ -243,6 +244,7 @@ class OPENQASMVisitor(Visitor):
         self.gate_defs['syc'] = GateDef('syc', 0, 2, SycamoreGate())
         self.gate_defs['t'] = GateDef('t', 0, 1, TGate())
         self.gate_defs['tdg'] = GateDef('tdg', 0, 1, TdgGate())
+        self.gate_defs['st'] = GateDef('st', 0, 1, SqrtTGate())
         self.gate_defs['x'] = GateDef('x', 0, 1, XGate())
         self.gate_defs['xx'] = GateDef('xx', 0, 2, XXGate())
         self.gate_defs['y'] = GateDef('y', 0, 1, YGate())
